@@ -426,3 +426,56 @@ impl Target for CacheTarget {
         json!({"val": val, "calls": calls, "avail": avail})
     }
 }
+
+// ---------------------------------------------------------------------------
+// C19, implementation -> spec: random histories with arbitrary ids
+// ---------------------------------------------------------------------------
+pub fn mapping_histories(args: &[String]) {
+    use std::io::Write;
+    let n: u64 = crate::get_arg(args, "--n").map(|s| s.parse().unwrap()).unwrap_or(50);
+    let seed: u64 = crate::get_arg(args, "--seed").map(|s| s.parse().unwrap()).unwrap_or(1);
+    let out = crate::get_arg(args, "--out").expect("--out");
+    let mut f = std::io::BufWriter::new(std::fs::File::create(out).unwrap());
+    let mut rng = crate::rng::Rng::new(seed ^ 0x3A9);
+    for h in 0..n {
+        writeln!(f, "{}", json!({"ev":"reset","id":h + 1})).unwrap();
+        let mut m: Mapping<NameId, u32> = Mapping::default();
+        // a small pool of ids per history: dense, around chunk boundaries, and large
+        let mut pool: Vec<u32> = Vec::new();
+        let k = rng.range(3, 10);
+        for _ in 0..k {
+            pool.push(match rng.below(4) {
+                0 => rng.range(0, 6),
+                1 => rng.range(120, 135),
+                2 => rng.range(250, 260),
+                _ => rng.range(0, 5000),
+            });
+        }
+        let steps = rng.range(20, 60);
+        for _ in 0..steps {
+            let id = *rng.pick(&pool);
+            let (op, v) = match rng.below(10) {
+                0..=5 => ("insert", rng.range(1, 9)),
+                6..=8 => ("unset", 0),
+                _ => ("roundtrip", 0),
+            };
+            match op {
+                "insert" => {
+                    m.insert(NameId(id), v);
+                }
+                "unset" => {
+                    m.unset(NameId(id));
+                }
+                _ => {
+                    let s = serde_json::to_string(&m).unwrap();
+                    m = serde_json::from_str(&s).unwrap();
+                }
+            }
+            let iter: Vec<Value> = m.iter().map(|(k, v)| json!([k.0, *v])).collect();
+            let slots = serde_json::to_value(&m).unwrap().as_array().map(|a| a.len()).unwrap_or(0);
+            writeln!(f, "{}", json!({"ev":"op","op":op,"k":id,"v":v,"len":m.len(),"empty":m.is_empty(),
+                "get": m.get(NameId(id)).copied().unwrap_or(0), "iter": iter, "slots": slots})).unwrap();
+        }
+    }
+    f.flush().unwrap();
+}
